@@ -4,9 +4,22 @@ import re
 ALG = "-|1:44160000,3:43c80000"
 
 
-def node_tok(i, mode="tun-router", pt=300, ka="-", st=300, claims=None, key=1, trusted=(1,), algos=ALG, nat=False):
+def node_tok(i, mode="tun-router", pt=300, ka="-", st=300, claims=None, key=1, trusted=(1,), algos=ALG, nat=False, hkf=False):
+    """hkf: the node has a lasting local fault in a late housekeeping step (a beacon file it cannot read): housekeep returns early there"""
     return "N.%d.%s.%d.%s.%d.%s.%d.%s.%s%s" % (i, mode, pt, ka, st, ";".join(claims) if claims else "-", key,
-                                                 "+".join(str(t) for t in trusted) if trusted else "-", algos, ".nat" if nat else "")
+                                                 "+".join(str(t) for t in trusted) if trusted else "-", algos, ".nat" if nat else (".hkf" if hkf else ""))
+
+
+def strip_hkerr(line, out):
+    """the housekeeping of a node declared with the fault flag reports its error on every tick (`hkerr,` prefix of the harness); that is the
+    configured fault, not an event: drop the prefix for exactly those nodes (an error on any other node stays visible)"""
+    if ".hkf" not in line:
+        return out
+    ops, outs = line.split()[1:], out.split()
+    if len(ops) != len(outs):
+        return out
+    faulty = set(t.split(".")[1] for t in ops if t.startswith("N.") and t.endswith(".hkf"))
+    return " ".join((r[6:] if (o.startswith("H.") and o[2:] in faulty and r.startswith("hkerr,")) else r) for o, r in zip(ops, outs))
 
 
 def emissions(tok):
